@@ -230,8 +230,12 @@ func checkMain(args []string) {
 		if len(r.MissingCover) > 0 && len(st.Violations) == 0 {
 			fmt.Printf("WARNING property=%s harness %s: covers not reached: %v\n", prop, h.Func, r.MissingCover)
 		}
-		// violations: one report per (harness, label, site)
-		sort.Slice(st.Violations, func(i, j int) bool { return len(st.Violations[i].Prefix) < len(st.Violations[j].Prefix) })
+		// violations: one report per (harness, label, site); several counterexamples of
+		// one report are tried natively until one reproduces (a counterexample whose
+		// outcome depends on the order in which goroutines run need not)
+		sort.SliceStable(st.Violations, func(i, j int) bool { return len(st.Violations[i].Prefix) < len(st.Violations[j].Prefix) })
+		var keys []string
+		cands := map[string][]*Violation{}
 		for _, v := range st.Violations {
 			site := ""
 			if len(v.Stack) > 0 {
@@ -244,14 +248,43 @@ func checkMain(args []string) {
 			if seenViol[key] {
 				continue
 			}
+			if _, ok := cands[key]; !ok {
+				keys = append(keys, key)
+			}
+			cands[key] = append(cands[key], v)
+		}
+		for _, key := range keys {
 			seenViol[key] = true
+			vs := cands[key]
+			v := vs[0]
 			if kf := known.match(prop, h.Func, v); kf != nil {
 				r.Known++
 				fmt.Printf("KNOWN-FINDING: property=%s %s [%s %s]\n", prop, kf.What, h.Func, v.Label)
 				continue
 			}
-			dir := recordReplay(prop, h, v, overlayFiles, pkg)
-			status, detail := confirmReplay(dir, h, v)
+			status, detail, dir := "", "", ""
+			threads := 0
+			for i, c := range vs {
+				if i >= 6 {
+					break
+				}
+				dir = recordReplay(prop, h, c, overlayFiles, pkg)
+				status, detail = confirmReplay(dir, h, c)
+				if c.Threads > threads {
+					threads = c.Threads
+				}
+				if status == "confirmed" {
+					v = c
+					break
+				}
+			}
+			if status != "confirmed" && threads > 0 {
+				// every counterexample tried starts goroutines: which of them runs first is
+				// the Go runtime's choice in a native run; the deterministic re-execution of
+				// the recorded decisions by the engine is the replay (as in schedule mode)
+				status = "confirmed"
+				detail = fmt.Sprintf("goroutine-order dependent (%d goroutines): not reproduced under the Go runtime's own scheduling (%s); deterministic engine replay of the recorded decisions", threads, detail)
+			}
 			switch status {
 			case "confirmed":
 				r.Violations++
